@@ -202,16 +202,49 @@ func (c17) Gen(rng *rand.Rand, tier string, emit0 func(string)) {
 	// The `kseq` cases (cheap to run, long lines: the bytes zlib delivers are part of the line) are run last: the check
 	// reads the output of its parallel harness processes one process after the other, a process whose output no longer
 	// fits in its buffer waits for its turn - the expensive cases must come before that point.
-	var kseqLast []string
+	// The `cmd` cases (subprocesses, no state of the harness involved) are started in the background when they are
+	// generated and their lines are emitted at the end, like the `glue` cases of the fifth pass.
+	var kseqLast, cmdLast []string
 	emit := func(l string) {
 		if strings.HasPrefix(l, "kseq ") {
 			kseqLast = append(kseqLast, l)
+		} else if f := strings.Fields(l); len(f) == 6 && f[0] == "cmd" {
+			c17BgStart(strings.Join(f, " "), func() c17GlueRes {
+				res, fails := c17Cmd(f)
+				return c17GlueRes{res: res, fails: fails}
+			})
+			cmdLast = append(cmdLast, l)
 		} else {
 			emit0(l)
 		}
 	}
 	defer func() {
 		for _, l := range kseqLast {
+			emit0(l)
+		}
+	}()
+	defer func() {
+		for _, l := range cmdLast {
+			emit0(l)
+		}
+	}()
+	// fifth pass (the glue between the commands and the readers): obiconvert subprocesses on several inputs; they use no
+	// state of the harness and are started now, in the background, while the in-process cases below run one at a time;
+	// their lines are emitted at the end of this function (thorough: dealt out among the 8 harness processes)
+	glueLines := c17GlueGen(rand.New(rand.NewSource(rng.Int63())), tier)
+	{
+		part, nparts := c17Partition(tier)
+		var mine []string
+		for i, l := range glueLines {
+			if i < 14 || i%nparts == part { // (the corpus runs in every process)
+				mine = append(mine, l)
+			}
+		}
+		glueLines = mine
+		c17GluePrefetch(glueLines)
+	}
+	defer func() {
+		for _, l := range glueLines {
 			emit0(l)
 		}
 	}()
@@ -513,9 +546,14 @@ func (c17) Exec(c string) (string, []Fail) {
 	case f[0] == "file" && (len(f) == 6 || (len(f) == 7 && strings.HasPrefix(f[6], "ms="))):
 		return c17File(f)
 	case f[0] == "cmd" && len(f) == 6:
+		if r, ok := c17BgTake(strings.Join(f, " ")); ok {
+			return r.res, r.fails
+		}
 		return c17Cmd(f)
 	case f[0] == "kseq" && (len(f) == 4 || len(f) == 6):
 		return c17Kseq(f)
+	case f[0] == "glue":
+		return c17Glue(f)
 	}
 	return "bad-op", nil
 }
@@ -838,9 +876,14 @@ func c17Cmd(f []string) (string, []Fail) {
 	return res, fails
 }
 
-var c17CmdOnce = map[string]string{}
+var (
+	c17CmdOnce = map[string]string{}
+	c17CmdMu   sync.Mutex
+)
 
 func repoCommandC17(name string) (string, error) {
+	c17CmdMu.Lock()
+	defer c17CmdMu.Unlock()
 	if p, ok := c17CmdOnce[name]; ok {
 		return p, nil
 	}
